@@ -119,6 +119,8 @@ pub const TEXTS: &[&str] = &[
     "\u{1}ACTION waves\u{1}",
     "!@#$%^&*()",
     "x",
+    ":-)",
+    ":",
     "",
     "a  b   c",
     " :",
@@ -340,7 +342,24 @@ pub fn mode_string(m: &Model, p: &Profile, actor: &str, ch: &str, s: &mut S) -> 
                         })
                         .unwrap_or_default();
                     if !plus && !list.is_empty() && s.chance(80) {
-                        args.push(list[s.pick(list.len())].clone());
+                        let stored = list[s.pick(list.len())].clone();
+                        // half of the time name the stored mask by one of its short forms
+                        // (nick -> nick!*@*, nick@host -> nick!*@host, nick!user -> nick!user@*)
+                        let short = if let Some(x) = stored.strip_suffix("!*@*") {
+                            x.to_string()
+                        } else if let Some(x) = stored.strip_suffix("@*") {
+                            x.to_string()
+                        } else if stored.contains("!*@") {
+                            stored.replacen("!*@", "@", 1)
+                        } else {
+                            stored.clone()
+                        };
+                        let usable = !short.is_empty() && !short.starts_with(':');
+                        if s.chance(50) && usable && crate::refglob::normalise(&short) == stored {
+                            args.push(short);
+                        } else {
+                            args.push(stored);
+                        }
                     } else {
                         let src = any_source(m, p, s);
                         args.push(derive_mask(&src, s));
@@ -475,6 +494,12 @@ pub fn gen_op(m: &Model, p: &Profile, seed: &OpSeed) -> Option<Op> {
             }
             if chans.is_empty() {
                 return Some(Op::Line(c, "PING nojoin".into()));
+            }
+            // the same name twice in one list (unusual input; the replies of that command are
+            // not judged, the resulting state is)
+            if s.chance(6) {
+                let d = chans[s.pick(chans.len())].clone();
+                chans.push(d);
             }
             let any_key = chans.iter().any(|ch| m.chans.get(ch).map_or(false, |c| c.key.is_some()));
             if any_key || s.chance(10) {
